@@ -91,6 +91,8 @@ type Engine struct {
 	Unwinds   []*UnwindFlag
 	Inputs    []*Input
 	Assumes   int
+	Folded    int
+	FoldedIDs map[string]int
 	Encoded   map[*ssa.Function]int
 	StubsUsed map[string]int
 	AlignHint map[*Obj]int
@@ -137,7 +139,7 @@ func NewEngine(prog *ssa.Program, pkg *ssa.Package, opts Opts) *Engine {
 	e := &Engine{C: smt.NewCtx(), Prog: prog, Pkg: pkg, Opts: opts, Fset: prog.Fset,
 		globals: map[*ssa.Global]*Obj{}, fninfo: map[*ssa.Function]*fnInfo{},
 		Encoded: map[*ssa.Function]int{}, StubsUsed: map[string]int{}, AlignHint: map[*Obj]int{},
-		Shape: map[string]int{}, Ghost: map[string]*Obj{}, curThread: -1, shapeSeq: map[string]int{}, TickerTicks: 2, chanFinal: map[*Obj]smt.Term{}, globalVals: map[*Obj]interface{}{}}
+		Shape: map[string]int{}, Ghost: map[string]*Obj{}, curThread: -1, shapeSeq: map[string]int{}, FoldedIDs: map[string]int{}, TickerTicks: 2, chanFinal: map[*Obj]smt.Term{}, globalVals: map[*Obj]interface{}{}}
 	if e.Opts.DefaultUnroll == 0 {
 		e.Opts.DefaultUnroll = 64
 	}
@@ -186,6 +188,11 @@ func (e *Engine) fail(st *State, bad smt.Term, id, where string) {
 	c := e.C
 	cond := c.And(st.G, bad)
 	if cond.IsFalse() {
+		// decided during symbolic execution: the assertion's negation folded to false
+		if !st.G.IsFalse() {
+			e.Folded++
+			e.FoldedIDs[id]++
+		}
 		return
 	}
 	th, ev := e.evIdx(st)
